@@ -196,10 +196,16 @@ fn run_case(seed: u64, idx: u64, _tier: Tier, out: &mut CaseOut) {
     for _ in 0..nrules {
         let sel = gen_hide_selector(&mut rng, &vocab);
         let mut decls = match rng.below(6) {
-            0 => vec![
-                Decl { kind: DeclKind::HeightZero, important: false },
-                Decl { kind: DeclKind::OverflowHidden, important: false },
-            ],
+            0 => {
+                let mut v = vec![
+                    Decl { kind: DeclKind::HeightZero, important: false },
+                    Decl { kind: DeclKind::OverflowHidden, important: false },
+                ];
+                if rng.chance(1, 2) {
+                    v.reverse();
+                }
+                v
+            }
             _ => vec![Decl {
                 kind: DeclKind::DisplayNone,
                 important: competing && rng.chance(1, 3),
@@ -239,8 +245,8 @@ fn run_case(seed: u64, idx: u64, _tier: Tier, out: &mut CaseOut) {
         if rng.below(100) < 4 {
             let u = e.get_attr("data-u").unwrap().to_string();
             let (style, none) = match rng.below(5) {
-                0 => ("height:0;overflow:hidden", true),
-                1 => ("max-height: 0; overflow-y: hidden", true),
+                0 => (*rng.pick(&["height:0;overflow:hidden", "overflow:hidden;height:0"]), true),
+                1 => (*rng.pick(&["max-height: 0; overflow-y: hidden", "overflow-y: hidden; max-height: 0"]), true),
                 2 if competing => ("display: block", false),
                 3 => ("height:0", false), // not hidden: no overflow:hidden
                 _ => ("display:none", true),
